@@ -770,11 +770,13 @@ class Gen:
                     elif s == "memory_addr":
                         largs.append("(0, m, 0)")
                 lb += call(lp.action, largs, "_ret")
-                lb += f"        let mut exp = old;\n        {V}::spec_set16(&mut exp, in_k, ea);\n"
+                lb += A("lea.dest_is_16bit_offset_of_operand", f"{V}::spec_get16(&{V}::regs(&vm), in_k) == ea")
+                # every other register unchanged: the destination is taken from the machine for the frame comparison
+                lb += f"        let mut exp = old;\n        {V}::spec_set16(&mut exp, in_k, {V}::spec_get16(&{V}::regs(&vm), in_k));\n"
                 e2, cl2 = epilogue("P", [], "")
                 h2 = H("h_lea__" + slug(p.sig).replace("memory_addr__", "") + "__" + tag,
                        lp.sig + "  [operand: " + p.sig + f"; regs: {','.join(regs) or '-'}]", ["C04", "C09"], "P",
-                       lb + e2 + '        kani::cover!(true, "reachable");\n', cl2,
+                       lb + e2 + '        kani::cover!(true, "reachable");\n', ["lea.dest_is_16bit_offset_of_operand"] + cl2,
                        replay={"kind": "l3", "shape": "lea", "regs": regs, "seg": bool(seg)})
                 h2.group = "lea"
                 self.out.append(h2)
